@@ -51,4 +51,10 @@ Definition s_iter_nohalt (n : nat) (p : program) (v : list (str * str))
                          (cmds : list (str * (list sres * bool))) : option (config sstate) :=
   iter_nohalt sstate s_exists s_cmd_run p (label_table p) n (init (World (list_to_map v) (mk_state cmds) false)).
 
+(* one un-halted iteration, for drivers that walk the run configuration by configuration *)
+Definition s_init (v : list (str * str)) (cmds : list (str * (list sres * bool))) : config sstate :=
+  init (World (list_to_map v) (mk_state cmds) false).
+Definition s_exec (p : program) (lt : gmap str nat) (c : config sstate) : config sstate + final sstate * list event :=
+  exec sstate s_exists s_cmd_run p lt c.
+
 Definition vars_list (w : world sstate) : list (str * str) := map_to_list (vars w).
